@@ -132,24 +132,26 @@ func lockRange(types []litefs.LockType) (start, end uint64, shm bool, exact bool
 		}
 	}
 	shm = start < uint64(litefs.LockTypePending)
-	var back []litefs.LockType
-	if shm {
-		back = litefs.ParseSHMLockRange(start, end)
-	} else {
-		if end == uint64(litefs.LockTypeShared) {
-			end += 509 // SQLite's SHARED_SIZE
-		}
-		back = litefs.ParseDatabaseLockRange(start, end)
+	if !shm && end == uint64(litefs.LockTypeShared) {
+		end += 509 // SQLite's SHARED_SIZE
 	}
-	if len(back) != len(types) {
+	// which lock bytes lie in the range — by the harness's own table of SQLite's lock bytes, not by
+	// the functions under test
+	inRange := map[litefs.LockType]bool{}
+	for _, t := range []litefs.LockType{
+		litefs.LockTypePending, litefs.LockTypeReserved, litefs.LockTypeShared,
+		litefs.LockTypeWrite, litefs.LockTypeCkpt, litefs.LockTypeRecover, litefs.LockTypeRead0, litefs.LockTypeRead1,
+		litefs.LockTypeRead2, litefs.LockTypeRead3, litefs.LockTypeRead4, litefs.LockTypeDMS,
+	} {
+		if start <= uint64(t) && uint64(t) <= end {
+			inRange[t] = true
+		}
+	}
+	if len(inRange) != len(types) {
 		return start, end, shm, false
 	}
-	seen := map[litefs.LockType]bool{}
-	for _, t := range back {
-		seen[t] = true
-	}
 	for _, t := range types {
-		if !seen[t] {
+		if !inRange[t] {
 			return start, end, shm, false
 		}
 	}
